@@ -129,10 +129,10 @@ Inductive cmd :=
 | CNoExpr                (* set_attr('expression', '') *)
 | CDisable.              (* port.disable() *)
 
-Definition exec (guard : bool) (c : cmd) (p : port) (now : Z) : outcome * port :=
+Definition exec_g (guard : bool) (g : Z) (c : cmd) (p : port) (now : Z) : outcome * port :=
   match c with
   | CNone => (OOk, p)
-  | CSeq sd => patch guard 1 p sd now
+  | CSeq sd => patch guard g p sd now
   | CExpr =>
       if negb (p_writable p) then (OOk, p)       (* set_attr: get_attr('expression') is None: silently ignored *)
       else cancel_then guard p (fun p' => (OOk, Port (p_enabled p') (p_writable p') true (p_seq p')))
@@ -143,6 +143,8 @@ Definition exec (guard : bool) (c : cmd) (p : port) (now : Z) : outcome * port :
       if negb (p_enabled p) then (OOk, p)
       else cancel_then guard p (fun p' => (OOk, Port false (p_writable p') (p_expr p') (p_seq p')))
   end.
+
+Definition exec (guard : bool) (c : cmd) (p : port) (now : Z) : outcome * port := exec_g guard 1 c p now.
 
 (* ------------------------------------------------------------------------------------------------------------ *)
 (* scenarios: first request at time 0, one command at time [at] after [pos] task steps due at that instant,
@@ -187,7 +189,12 @@ Fixpoint run_until (fuel : nat) (p : port) (at_ : Z) (pos : nat) : list mev * po
 
 Record scenario := Scenario {
   sc_enabled : bool; sc_writable : bool; sc_expr : bool;
-  sc_seq : seqdef; sc_cmd : cmd; sc_at : Z; sc_pos : nat; sc_horizon : Z }.
+  sc_seq : seqdef; sc_cmd : cmd; sc_at : Z; sc_pos : nat; sc_horizon : Z;
+  sc_dlat : Z   (* how long the driver's handle_disable() hook takes (ms); disable() returns that much later *) }.
+
+(* disable(): cancel the sequence, mark the port disabled, THEN await the driver's hook *)
+Definition hook_latency (sc : scenario) (p : port) : Z :=
+  match sc_cmd sc with CDisable => if p_enabled p then dpos (sc_dlat sc) else 0 | _ => 0 end.
 
 Definition no_cmd (c : cmd) : bool := match c with CNone => true | _ => false end.
 
@@ -202,7 +209,76 @@ Definition sim (guard : bool) (fuel : nat) (sc : scenario) : list mev :=
      let '(l1, p2) := run_until fuel p1 (sc_at sc) (sc_pos sc) in
      let '(o, p3) := exec guard (sc_cmd sc) p2 (sc_at sc) in
      let '(l2, p4) := run_until fuel p3 (h + 1) 0 in
-     l1 ++ [MC (sc_at sc) (is_active p2); MD (sc_at sc) o (is_active p3)] ++ l2 ++ [ME h (is_active p4)]).
+     l1 ++ [MC (sc_at sc) (is_active p2); MD (sc_at sc + hook_latency sc p2) o (is_active p3)] ++ l2
+        ++ [ME h (is_active p4)]).
+
+(* ------------------------------------------------------------------------------------------------------------ *)
+(* two commands (each a new sequence or disable) started in the same loop iteration, c1's task step before c2's.
+   Code with fixes/C19-concurrent-cancel.diff: every cancellation goes through
+       while self._sequence: sequence, self._sequence = self._sequence, None; await sequence.cancel()
+   and set_sequence installs only `if values and self._enabled and not self._expression`.
+   A command that finds a sequence detaches it and is suspended until that sequence's task has ended (two loop iterations
+   later); a command that finds none runs to completion in its first step.  A sequence installed by c2 while c1 is suspended
+   takes exactly one step (its first delay is > 0 in these scenarios) before c1 resumes and cancels it. *)
+
+Definition reaches_cancel (c : cmd) (p : port) : bool :=
+  match c with
+  | CSeq sd => (List.length (sd_vals sd) =? List.length (sd_delays sd))%nat && p_enabled p && p_writable p && negb (p_expr p)
+  | CDisable => p_enabled p
+  | CExpr | CNoExpr => p_writable p
+  | CNone => false
+  end.
+
+(* first step of a command: completes (outcome, port) or is suspended with the running sequence detached *)
+Definition cmd_start (g : Z) (c : cmd) (p : port) (now : Z) : (outcome * port) + port :=
+  if reaches_cancel c p then
+    match p_seq p with
+    | Some _ => inr (set_seq p None)
+    | None => inl (exec_g true g c p now)
+    end
+  else inl (exec_g true g c p now).
+
+(* what a resumed command does once nothing is left to cancel *)
+Definition resume_body (g : Z) (c : cmd) (p : port) (now : Z) : outcome * port :=
+  match c with
+  | CSeq sd =>
+      match sd_vals sd with
+      | [] => (OOk, p)
+      | _ => if p_enabled p && negb (p_expr p) then (OOk, set_seq p (Some (SeqSt g sd 0 (TFresh now)))) else (OOk, p)
+      end
+  | CExpr => (OOk, Port (p_enabled p) (p_writable p) true (p_seq p))
+  | CNoExpr => (OOk, Port (p_enabled p) (p_writable p) false (p_seq p))
+  | CDisable => (OOk, Port false (p_writable p) (p_expr p) (p_seq p))
+  | CNone => (OOk, p)
+  end.
+
+Inductive mev2 := M1 (m : mev) | MD2 (t : Z) (o : outcome) (active : bool).   (* MD2: the second command returned *)
+
+Definition sim2 (fuel : nat) (sc : scenario) (c2 : cmd) : list mev2 :=
+  let p0 := Port (sc_enabled sc) (sc_writable sc) (sc_expr sc) None in
+  let '(o0, p1) := patch true 0 p0 (sc_seq sc) 0 in
+  let h := sc_horizon sc in
+  let at_ := sc_at sc in
+  let '(l1, p2) := run_until fuel p1 at_ (sc_pos sc) in
+  let '(mid, pend) :=
+    match cmd_start 1 (sc_cmd sc) p2 at_ with
+    | inl (o1, p3) =>
+        match cmd_start 2 c2 p3 at_ with
+        | inl (o2, p4) => ([M1 (MD at_ o1 (is_active p3)); MD2 at_ o2 (is_active p4)], p4)
+        | inr p4 =>
+            (* the detached sequence (just installed by c1, or the old one) ends without another step *)
+            let '(o2, p5) := resume_body 2 c2 p4 at_ in
+            ([M1 (MD at_ o1 (is_active p3)); MD2 at_ o2 (is_active p5)], p5)
+        end
+    | inr p3 =>
+        (* c1 suspended; c2 finds no sequence and completes; what it installed takes one step; c1 resumes, cancels it *)
+        let '(o2, p4) := exec_g true 2 c2 p3 at_ in
+        let e := match p_seq p4 with Some s => fst (task_step s) | None => [] end in
+        let '(o1, p5) := resume_body 1 (sc_cmd sc) (set_seq p4 None) at_ in
+        ([MD2 at_ o2 (is_active p4)] ++ map (fun x => M1 (tag 2 x)) e ++ [M1 (MD at_ o1 (is_active p5))], p5)
+    end in
+  let '(l2, p6) := run_until fuel pend (h + 1) 0 in
+  M1 (MP o0 (is_active p1)) :: map M1 l1 ++ [M1 (MC at_ (is_active p2))] ++ mid ++ map M1 l2 ++ [M1 (ME h (is_active p6))].
 
 (* what the harness observes: (kind, ms, value or outcome code, active) *)
 Definition enc (m : mev) : Z * Z * Z * bool :=
@@ -214,3 +290,6 @@ Definition enc (m : mev) : Z * Z * Z * bool :=
   | MD t o a => (4, t, outcome_code o, a)
   | ME t a => (5, t, 0, a)
   end.
+
+Definition enc2 (m : mev2) : Z * Z * Z * bool :=
+  match m with M1 x => enc x | MD2 t o a => (6, t, outcome_code o, a) end.
